@@ -31,32 +31,35 @@ def wrap (e : Entry) (step : Step) (head lib : Ref) (j : Option Ref) : Event :=
 
 def capLib (lib : Ref) (e : Entry) : Ref := if lib.num > e.blk.num then e.blk.ref else lib
 
+/-- the loop of blocksFromNum: skip up to the first block numbered `num`, then everything -/
+def fromNumGo (head lib : Ref) (num : Nat) (seen : Bool) : List Entry → List Event
+  | [] => []
+  | e :: rest =>
+    let seen := seen || e.blk.num == num
+    if !seen then fromNumGo head lib num seen rest
+    else wrap e (if e.blk.num ≤ lib.num then .newIrreversible else .new) head (capLib lib e) none ::
+      fromNumGo head lib num seen rest
+
 /-- blocksFromNum(num) -/
 def blocksFromNum (s : FState) (num : Nat) : Option (List Event) :=
   match headSegment s with
   | none => none
   | some (h, seg) =>
-    let lib := s.db.libRef
-    let rec go (seen : Bool) : List Entry → List Event
-      | [] => []
-      | e :: rest =>
-        let seen := seen || e.blk.num == num
-        if !seen then go seen rest
-        else wrap e (if e.blk.num ≤ lib.num then .newIrreversible else .new) h.ref (capLib lib e) none :: go seen rest
-    match go false seg with
+    match fromNumGo h.ref s.db.libRef num false seg with
     | [] => none
     | out => some out
+
+/-- stable insertion by number -/
+def insByNum (b : Blk) : List Blk → List Blk
+  | [] => [b]
+  | x :: xs => if b.num < x.num then b :: x :: xs else x :: insByNum b xs
 
 /-- blocksFromNumWithForks(num): every retained block with num ≥ start, ascending by height (ties: by id here) -/
 def blocksFromNumWithForks (s : FState) (num : Nat) : Option (List Blk) :=
   if !s.db.hasLIB then none
   else
     let wanted := (sortById (s.db.entries.filter (fun e => e.blk.num ≥ num))).map (·.blk)
-    -- stable insertion sort by number
-    let rec ins (b : Blk) : List Blk → List Blk
-      | [] => [b]
-      | x :: xs => if b.num < x.num then b :: x :: xs else x :: ins b xs
-    some (wanted.foldl (fun acc b => ins b acc) [])
+    some (wanted.foldl (fun acc b => insByNum b acc) [])
 
 def blockIn (id : Id) (seg : List Entry) : Bool := seg.any (·.blk.id == id)
 
